@@ -3,6 +3,8 @@ snippets, Python-enumerated families over the same AST, packing of snippets into
 generator of whole programs."""
 from __future__ import annotations
 
+import json
+
 import copy
 import random
 
@@ -281,6 +283,11 @@ def persist_programs() -> list:
     add("per_acc", [ASSIGN("t", I(0))], [AUG("t", "+", I(2)), WRITE(V("t"))])
     add("per_setup_print", [ASSIGN("t", I(3)), WRITE(V("t"))], [AUG("t", "*", I(2)), WRITE(V("t")), SLEEP(I(5))])
     add("per_first_in_loop", [], [ASSIGN("k", I(5)), WRITE(V("k"))])
+    # a name first bound at the top level of the loop body to a constant and changed later in the pass: the binding is a statement
+    # that runs on EVERY pass (an accumulator / flag / scratch value starts afresh each time)
+    add("per_reset_each_pass", [], [ASSIGN("tot", I(0)), ASSIGN("flag", B(False)), TUPLE(["lo", "hi"], [I(0), I(10)]), ASSIGN("scr", F(0.5)),
+                                    FOR("ri", I(3), [AUG("tot", "+", BIN("+", V("ri"), I(1)))]), IF([(CMP(V("tot"), (">", I(5))), [ASSIGN("flag", B(True))])]),
+                                    AUG("lo", "+", I(1)), AUG("hi", "-", V("lo")), AUG("scr", "*", I(3)), WRITE(V("tot")), WRITE(V("flag")), WRITE(V("lo")), WRITE(V("hi")), WRITE(V("scr"))], npass=3)
     add("per_cond_first", [], [IF([(CMP(AREAD(), (">", I(0))), [ASSIGN("z", I(5))])]), IF([(CMP(AREAD(), (">", I(0))), [WRITE(V("z"))])])], ain=[1, 1, 0, 1, 0, 1])
     add("per_counter_branch", [ASSIGN("n", I(0))], [AUG("n", "+", I(1)), IF([(CMP(BIN("%", V("n"), I(2)), ("==", I(0))), [WRITE(S("even"))])], [WRITE(S("odd"))])])
     add("per_float_acc", [ASSIGN("x", F(0.5))], [AUG("x", "+", F(0.25)), WRITE(V("x"))])
@@ -682,6 +689,15 @@ def scope_fold_snippets() -> list:
                     [], "fold:tuple"))
     out.append(snip("fold-tuple-swap-int-fold", [ASSIGN("na", I(2)), ASSIGN("nb", I(6)), TUPLE(["na", "nb"], [V("nb"), V("na")]), SLEEP(BIN("*", V("na"), I(100))),
                                                  FOR("ni", V("nb"), [WRITE(V("ni"))]), AWRITE(9, BIN("*", V("na"), I(10)))], [], "fold:tuple"))
+    # a string built from a run-time value (a helper parameter, a sensor reading, a loop variable) is itself a run-time value: its
+    # length is not a transpile-time quantity (nor is anything derived from that length)
+    out.append(snip("fold-derived-str-param", [WRITE(CALL("banner", S("Bob"))), WRITE(CALL("banner", S("Alexandra"))), WRITE(CALL("framed", S("ab"))), WRITE(CALL("framed", S("abcdefg")))], [],
+                    "fold:derived-str", {"banner": DEF(["who"], [ASSIGN("msg", BIN("+", S("Hi "), V("who"))), RETURN(CALL("len", V("msg")))]),
+                                         "framed": DEF(["t"], [ASSIGN("fr", BIN("+", BIN("+", S("["), V("t")), S("]"))), ASSIGN("fw", CALL("len", V("fr"))), SLEEP(V("fw")), RETURN(BIN("*", V("fw"), I(2)))])}))
+    out.append(snip("fold-derived-str-reading", [ASSIGN("rv", AREAD()), ASSIGN("rs", BIN("+", S("v="), CALL("str", V("rv")))), ASSIGN("rw", CALL("len", V("rs"))), WRITE(V("rw")),
+                                                 ASSIGN("rf", FSTR("<", V("rv"), ">")), WRITE(CALL("len", V("rf"))), SLEEP(CALL("len", V("rf"))), WRITE(V("rs"))], [512], "fold:derived-str"))
+    out.append(snip("fold-derived-str-loopvar", [FOR("dk", I(12), [ASSIGN("ds", BIN("+", S("n"), CALL("str", BIN("*", V("dk"), I(9))))), ASSIGN("dn", CALL("len", V("ds")))]), WRITE(V("dn")), WRITE(V("ds"))], [],
+                    "fold:derived-str"))
     # name-free comparison chains (foldable at transpile time): each comparison is with the PREVIOUS operand
     chains = [((0, "<", 10, "<", 5), 100, 500), ((0, "<=", 300, "<=", 255), 200, 10), ((3, ">", 1, ">", 2), 7, 8), ((1, "<", 2, "<", 3), 30, 40),
               ((2, "==", 2, "!=", 2), 5, 6), ((5, ">", 4, ">", 4), 11, 12), ((1, "<", 3, ">", 2), 21, 22), ((1, "<", 2, "<", 3, "<", 2), 31, 32)]
@@ -735,4 +751,14 @@ def list_routing_snippets() -> list:
             s = snip(f"listroute-{routing}-{op}", st, ain, f"listroute:{routing}", defs)
             s["routing"], s["site"] = routing, "list-" + op
             out.append(s)
+            # the same with an element that is read from a sensor: the list has no transpile-time value, its length is a run-time
+            # quantity on every path (len() must not be baked from bookkeeping that counts statements, not executions)
+            if routing not in ("fn_called", "fn_uncalled"):
+                import copy
+                xr = f"lq{n}"
+                pre_r = json.loads(json.dumps(pre).replace(f'"{xs}"', f'"{xr}"'))
+                st = [ASSIGN(xr, LIST(I(1), I(2), AREAD()))] + pre_r + [WRITE(CALL("len", V(xr))), WRITE(INDEX(V(xr), I(-1))), ASSIGN(f"ln{n}", CALL("len", V(xr))), WRITE(BIN("*", V(f"ln{n}"), I(10)))]
+                s = snip(f"listroute-rt-{routing}-{op}", st, [3] + ain, f"listroute:{routing}", {})
+                s["routing"], s["site"] = routing, "list-rt-" + op
+                out.append(s)
     return out
